@@ -30,18 +30,49 @@ def gen_scenario(rng):
     steps = []
     for _ in range(rng.choice([1, 1, 2])):
         if spin or rng.random() < 0.6:
+            lt = True if spin else rng.random() < 0.8
             if rng.random() < 0.4:
                 P, rel = cs.special_poly(rng, labels, rng.choice(cs.SPECIAL_SHAPES))
             else:
-                P = cs.gen_poly(rng, labels, maxdeg=rng.choice([1, 1, 2]), maxterms=2, coefs=(-1, 1, 2), offset_p=0.7)
+                if lt:
+                    # with the log trick wide and lopsided ranges stay cheap (few slack bits): up to three terms, |coef| <= 3
+                    P = cs.gen_poly(rng, labels, maxdeg=rng.choice([1, 1, 1, 2]), maxterms=3,
+                                    coefs=(-1, 1, 1, 2) if spin else (-3, -2, -1, 1, 2, 3), offset_p=0.5)
+                else:
+                    P = cs.gen_poly(rng, labels, maxdeg=rng.choice([1, 1, 2]), maxterms=2, coefs=(-1, 1, 2), offset_p=0.7)
                 rel = rng.choice(cs.RELS)
-            steps.append({"mode": "cmp", "P": P, "rel": rel, "lt": True if spin else rng.random() < 0.8})
+            steps.append({"mode": "cmp", "P": P, "rel": rel, "lt": lt})
         else:
             gate = rng.choice(cs.GATES)
             geq = rng.random() < 0.4
             n_ops = 1 if gate in ("BUFFER", "NOT") else rng.choice([2, 2, 3])
             steps.append({"mode": "gate", "gate": gate, "geq": geq, "a": c06.operand(rng, labels) if geq else None,
                           "ops": [c06.operand(rng, labels) for _ in range(n_ops)]})
+    if not spin and rng.random() < 0.2:
+        # directed family: a lopsided three-term linear constraint with the objective pulling to one end of its range
+        cs3 = [rng.choice([1, 2, 3]) * rng.choice([1, -1, -1]) for _ in labels]
+        P = {(l,): c for l, c in zip(labels, cs3)}
+        if rng.random() < 0.3:
+            P[()] = rng.choice([-1, 1])
+        steps = [{"mode": "cmp", "P": P, "rel": rng.choice(cs.RELS), "lt": True}]
+        sgn = rng.choice([1, -1])
+        f = {k: sgn * v for k, v in P.items() if k}
+        return {"spin": spin, "labels": labels, "f": f, "steps": steps, "extra": rng.choice([1, 2, 0.5])}
+    # sometimes align the objective with a constrained polynomial so that the optimum sits at an extreme of its range
+    # (where slack sizing matters)
+    cmps = [st for st in steps if st["mode"] == "cmp"]
+    if cmps and rng.random() < 0.35:
+        sgn = rng.choice([1, -1])
+        f = {k: sgn * v for k, v in cmps[0]["P"].items() if k}
+        if not f:
+            f = {(labels[0],): 1}
+        if rng.random() < 0.5:
+            k = (rng.choice(labels),)
+            f[k] = f.get(k, 0) + rng.choice([-1, 1])
+            if f[k] == 0:
+                del f[k]
+            if not f:
+                f = {(labels[0],): 1}
     return {"spin": spin, "labels": labels, "f": f, "steps": steps, "extra": rng.choice([1, 2, 0.5])}
 
 
@@ -172,9 +203,9 @@ def run(tier, out, replay=None):
     rng = common.rng_for(out.seed, "c08")
     thorough = tier == "thorough"
     global MAXV
-    MAXV = 11 if thorough else 9
+    MAXV = 12 if thorough else 10
     try:
-        scens = [gen_scenario(rng) for _ in range(900 if thorough else 130)]
+        scens = [gen_scenario(rng) for _ in range(3000 if thorough else 450)]
         if replay:
             scens = [scens[json.load(open(replay))["record"]["scenario_index"]]]
         recs, owners = [], []
